@@ -7,6 +7,23 @@ use serde_json::{json, Map, Value};
 use std::collections::HashMap;
 use std::panic::{catch_unwind, AssertUnwindSafe};
 
+/// objects nested `d` levels below their top-level values, in four shapes (arrays only; arrays and objects
+/// alternating with siblings; the deep value twice, once one level further down; an empty object)
+pub fn deep_object(kind: u64, d: usize) -> Value {
+    let mut v = json!(1);
+    let mut w = json!({"s": "x"});
+    for i in 0..d {
+        v = json!([v]);
+        w = if i % 3 == 0 { json!({"flat": 1, "k": w}) } else { json!([0, w]) };
+    }
+    match kind {
+        0 => json!({ "n": v }),
+        1 => json!({"a": 1, "n": w, "z": [[]]}),
+        2 => json!({"a": v.clone(), "b": {"c": v}}),
+        _ => json!({}),
+    }
+}
+
 pub fn js(v: &Value) -> String {
     serde_json::to_string(v).unwrap()
 }
@@ -187,6 +204,9 @@ pub fn answer(req: &Value) -> String {
             Ok(v) => format!("ok {}", js(&v)),
             Err(_) => "err".into(),
         },
+        // `is_too_deep` on an object built from (kind, depth): the request line stays flat, because request
+        // files are read back with the same depth-limited parser
+        "toodeep" => format!("{}", is_too_deep(deep_object(a[1].as_u64().unwrap(), a[2].as_u64().unwrap() as usize).as_object().unwrap())),
         "sha" => digest_string(a[1].as_str().unwrap()),
         "rev.obj" => match digest_object(a[1].as_object().unwrap()) {
             // the creation revision of an object, printed and parsed back
@@ -697,6 +717,25 @@ pub fn gen_requests(channel: &str, r: &mut Rng, count: usize) -> Vec<Value> {
             ];
             for t in texts {
                 out.push(json!(["json", t]));
+            }
+            // texts nested around the parser's recursion limit (128): arrays, objects, mixed, with siblings,
+            // well-formed and cut short; and objects around the library's own guard (100) for `is_too_deep`
+            for d in [1usize, 99, 100, 101, 126, 127, 128, 129, 200] {
+                let arr = format!("{}1{}", "[".repeat(d), "]".repeat(d));
+                let obj = format!("{}1{}", "{\"a\":".repeat(d), "}".repeat(d));
+                let mixed: String = (0..d).map(|i| if i % 2 == 0 { "[" } else { "{\"k\":" }).collect::<String>()
+                    + "null"
+                    + &(0..d).rev().map(|i| if i % 2 == 0 { "]" } else { "}" }).collect::<String>();
+                let sib = format!("[0,{},\"x\"]", arr);
+                let cut = format!("{}1{}", "[".repeat(d), "]".repeat(d.saturating_sub(1)));
+                for t in [arr, obj, mixed, sib, cut] {
+                    out.push(json!(["json", t]));
+                }
+            }
+            for d in [0usize, 1, 2, 50, 97, 98, 99, 100, 101, 102, 130] {
+                for kind in 0..4u64 {
+                    out.push(json!(["toodeep", kind, d]));
+                }
             }
             while out.len() < count {
                 let v = plain_nested(r, 4);
